@@ -5,10 +5,12 @@
         op   = R <ent> <idarg> <force 0|1> <weak 0|1> | U <target> | G <k> | F <target> | P <target> | C <id> | V <k> <ser> | L
         ent  = o<k> | c<c>          id = D | n<k> | g<k> | r<k>   (r<k>: the (k mod #generated)-th generated id; n0 if none yet)
         idarg = N | E | X | <id>    target = <ent> | <id> | N | X        ser = s | j | m
-      → r1;r2;…;rn | id=ref/w,… | o0:<pid>/<pdm> … c0:<pid>/<pdm> …
+      → r1;r2;…;rn | id=ref/w,… | o0:<pid>/<pdm> … c0:<pid>/<pdm> … | src=ok   (or src=diff@<step>: the source transcription
+        Pyro.Gen.C16Src, evaluated next to the model on every register/unregister/uriFor/registered/return/gc step, disagreed)
         results: uri:<id> ok err:T|V|D|A proxy:<id>><call result> byvalue reached:D|o<k> inst:c<c> unknown deadweak ids:<id>,… collected kept dead
 -/
 import PyroModel.Registry
+import PyroModel.Gen.C16
 import Driver.Util
 
 open Pyro Pyro.Registry Driver
@@ -98,17 +100,61 @@ def resStr (s' : State) (viaWire : Bool) : Res → String
   | .kept => "kept"
   | .dead => "dead"
 
-def runOps (cfg : Cfg) : Nat → State → List String → List String → Option (State × List String)
-  | 0, s, [], acc => some (s, acc.reverse)
-  | 0, _, _ :: _, _ => none
-  | n + 1, s, toks, acc =>
+/-! the transcription of the source (Pyro.Gen.C16Src) next to the model, step by step -/
+section Transcription
+open Pyro.Registry.Src Pyro.Gen.C16Src
+
+def stEq (nobj ncls : Nat) (a b : State) : Bool :=
+  a.objs == b.objs && a.fins == b.fins && a.next == b.next &&
+  (List.range nobj).all (fun k => a.pid (.obj k) == b.pid (.obj k) && a.pdm (.obj k) == b.pdm (.obj k) && a.dead k == b.dead k) &&
+  (List.range ncls).all (fun c => a.pid (.cls c) == b.pid (.cls c) && a.pdm (.cls c) == b.pdm (.cls c))
+
+def outEq (nobj ncls : Nat) (o : Out) (m : State × Res) : Bool := stEq nobj ncls o.1 m.1 && o.2 == resR m.2
+
+/-- does the transcription agree with the model's step?  (steps outside the python calls - dead objects, an explicit id
+    that `uuid4` has not produced yet - are not compared) -/
+def srcAgrees (nobj ncls : Nat) (s : State) (op : Op) (m : State × Res) : Bool :=
+  match op with
+  | .register e ia f w =>
+    if isDead s e then true else
+    (match ia with | .str (.gen n) => decide (s.next ≤ n) | _ => false) ||
+    outEq nobj ncls (registerSrc s (.ent e) (IdArg.val ia) f w) m
+  | .unregister t =>
+    (match t with | .byObj e => isDead s e | _ => false) || outEq nobj ncls (unregisterSrc s (Target.val t)) m
+  | .uriFor t =>
+    (match t with | .byObj e => isDead s e | _ => false) || outEq nobj ncls (uriForSrc s (Target.val t) true) m
+  | .registered => outEq nobj ncls (registeredIdsSrc s) m
+  | .returnObj k _ =>
+    if s.dead k then true else
+    let o := autoProxySrc s (.ent (.obj k))
+    (match m.2 with
+     | .byValue => o.2 == .ret (.ent (.obj k))
+     | r => o.2 == resR r) && stEq nobj ncls o.1 s
+  | .gc k =>
+    (match m.2 with
+     | .collected =>
+       let ids := (s.fins.filter (fun p => p.1 = k)).map (·.2)
+       let s1 := { s with dead := upd s.dead k true }
+       (ids.foldl (fun st i => (finalizerSrc st (.str i) (.wref (.ent (.obj k)))).1) s1).objs == m.1.objs
+     | _ => true)
+  | _ => true
+
+end Transcription
+
+def runOps (cfg : Cfg) (nobj ncls : Nat) : Nat → Nat → State → List String → List String → Option Nat → Option (State × List String × Option Nat)
+  | 0, _, s, [], acc, bad => some (s, acc.reverse, bad)
+  | 0, _, _, _ :: _, _, _ => none
+  | n + 1, ix, s, toks, acc, bad =>
     match parseOp s toks with
     | none => none
     | some (op, rest) =>
       let (s', r) := step cfg s op
       -- a proxy that arrived at the client (returned object) is followed by a call through it
       let viaWire := match op with | .returnObj _ _ => true | _ => false
-      runOps cfg n s' rest (resStr s' viaWire r :: acc)
+      let bad' := match bad with
+        | some b => some b
+        | none => if srcAgrees nobj ncls s op (s', r) then none else some ix
+      runOps cfg nobj ncls n (ix + 1) s' rest (resStr s' viaWire r :: acc) bad'
 
 def dmStr : DAttr → String
   | .absent => "-" | .none => "none" | .this => "this"
@@ -121,12 +167,13 @@ def step' : List String → String
   | "h" :: cfg :: nobj :: ncls :: n :: rest =>
     match parseCfg cfg, nobj.toNat?, ncls.toNat?, n.toNat? with
     | some cfg, some nobj, some ncls, some n =>
-      match runOps cfg n init rest [] with
-      | some (s, rs) =>
+      match runOps cfg nobj ncls n 0 init rest [] none with
+      | some (s, rs, bad) =>
         ";".intercalate rs ++ " | " ++
         ",".intercalate (s.objs.map fun (i, en) => idStr i ++ "=" ++
           (match deref s en with | some r => refStr r | none => "?deadref") ++ (if en.weak then "/w" else "/s")) ++ " | " ++
-        " ".intercalate ((List.range nobj).map (fun k => attrStr s (.obj k)) ++ (List.range ncls).map (fun c => attrStr s (.cls c)))
+        " ".intercalate ((List.range nobj).map (fun k => attrStr s (.obj k)) ++ (List.range ncls).map (fun c => attrStr s (.cls c))) ++
+        " | src=" ++ (match bad with | none => "ok" | some ix => s!"diff@{ix}")
       | none => "bad-op"
     | _, _, _, _ => "bad-op"
   | _ => "bad-op"
